@@ -368,6 +368,9 @@ def dataset_case(ctx, rng, idx):
     n_ids = int(rng.integers(1, 5))
     id_style = ['int', 'str', 'float'][int(rng.integers(3))]
     with_duration = bool(rng.integers(2))
+    # dose rows may overlap in time (a bolus during an infusion, a loading
+    # dose together with the start of an infusion): the rates add up
+    overlapping = with_duration and idx % 4 == 3
     rows, truth = [], {}
     for i in range(n_ids):
         label = {'int': i + 1, 'str': 'p%d' % i, 'float': float(i + 1)}[
@@ -380,9 +383,12 @@ def dataset_case(ctx, rng, idx):
                          'Value': float(rng.uniform(0.1, 2)),
                          'Dose': np.nan, 'Duration': np.nan})
         last_end = -1.0
-        for s in np.sort(rng.uniform(0, 4, size=int(rng.integers(0, 4)))):
-            s = float(max(s, last_end + 0.05))
-            d = float(rng.uniform(0.05, 0.4)) if (
+        starts = np.sort(rng.uniform(0, 4, size=int(rng.integers(0, 4))))
+        if overlapping and len(starts) >= 2 and rng.random() < 0.4:
+            starts[1] = starts[0]       # e.g. loading bolus + infusion
+        for s in starts:
+            s = float(s) if overlapping else float(max(s, last_end + 0.05))
+            d = float(rng.uniform(0.05, 1.5 if overlapping else 0.4)) if (
                 with_duration and rng.random() < 0.7) else np.nan
             a = float(rng.uniform(0.5, 4))
             rows.append({'ID': label, 'Time': s, 'Observable': np.nan,
@@ -397,7 +403,8 @@ def dataset_case(ctx, rng, idx):
         df = df.drop(columns=['Duration'])
         dur_key = None
     feats = {'n_ids': n_ids, 'id_style': id_style,
-             'duration_column': with_duration, 'direct': direct}
+             'duration_column': with_duration, 'direct': direct,
+             'overlapping_dose_rows': overlapping}
     ctx.case(('dataset', n_ids, id_style, with_duration, direct), True,
              sample=dict(feats, dose_rows=truth))
     c = chi.ProblemModellingController(m, chi.GaussianErrorModel())
@@ -443,8 +450,25 @@ def dataset_case(ctx, rng, idx):
         bad_period = any(e.period() != 0 or e.multiplier() != 0
                          for e in regs[key].events())
         want = sorted(want)
-        if bad_period or len(got) != len(want) or (len(want) and not
-                                                   np.allclose(
+        overlap = any(a_[0] + a_[1] > b_[0] + 1e-12
+                      for a_, b_ in zip(want[:-1], want[1:]))
+        if overlap:
+            # the protocol may split overlapping rows into pieces: its
+            # cumulative input has to equal that of the dose rows at all times
+            ctx.count('overlapping_dose_tables')
+            pts = sorted(set([p_ for s_, d_, a_ in want
+                              for p_ in (s_, s_ + d_, s_ + d_ / 2)] + [9.0]))
+            cg = [R.cumulative_input(got, t_) for t_ in pts]
+            cw = [R.cumulative_input(want, t_) for t_ in pts]
+            if bad_period or not np.allclose(cg, cw, rtol=1e-9, atol=1e-12):
+                ctx.violation('dataset_regimen_reproduces_dose_rows',
+                              'overlapping_dose_rows_not_reproduced',
+                              {'id': key, 'regimen': got, 'dose_rows': want,
+                               'cumulative_regimen': cg,
+                               'cumulative_dose_rows': cw}, feats)
+                continue
+        elif bad_period or len(got) != len(want) or (len(want) and not
+                                                     np.allclose(
                 np.array(got), np.array(want), rtol=1e-9, atol=1e-12)):
             ctx.violation('dataset_regimen_reproduces_dose_rows',
                           'dataset_regimen_mismatch',
